@@ -375,10 +375,10 @@ theorem reach_inv (cfg : Cfg) {c : Conf} (h : Reach cfg c) : Inv cfg c := by
   | tick ms _ ih => exact inv_tick cfg ms ih
   | retire _ hd ih => exact inv_retire cfg ih hd
 
-/-! ## several breaker objects (rule reloads): every object is a breaker in the sense of `Reach` -/
+/-! ## several breaker objects (rule reloads, several breakers per resource): every object is a breaker in the sense of `Reach` -/
 
 /-- every object of the world, with the calls bound to it, is a reachable single-breaker configuration — so every
-    theorem about `Reach` holds for the live breaker and for every retired one -/
+    theorem about `Reach` holds for each breaker of the published list and for every retired one -/
 def WOK (w : World) : Prop := ∀ o ∈ w.objs, Reach o.cfg o.conf
 
 theorem wok_empty : WOK {} := by intro o ho; cases ho
@@ -401,8 +401,8 @@ theorem wok_tick (w : World) (ms : Nat) (h : WOK w) : WOK (w.tick ms) := by
   obtain ⟨q, hq, rfl⟩ := hp
   exact Reach.tick ms (h q hq)
 
-theorem wok_set (w : World) (k l : Nat) (o' : Obj) (h : WOK w) (ho : Reach o'.cfg o'.conf) :
-    WOK ⟨w.objs.set k o', l⟩ := by
+theorem wok_set (w : World) (k : Nat) (o' : Obj) (h : WOK w) (ho : Reach o'.cfg o'.conf) :
+    WOK { w with objs := w.objs.set k o' } := by
   intro p hp
   rcases List.mem_or_eq_of_mem_set hp with hp | rfl
   · exact h p hp
@@ -413,49 +413,102 @@ theorem wok_step (w : World) (k j : Nat) (h : WOK w) : WOK (w.step k j) := by
   cases hk : w.objs[k]? with
   | none => exact h
   | some o =>
-    exact wok_sync _ k (wok_set w k w.live _ h (Reach.step j (h o (List.mem_of_getElem? hk))))
+    exact wok_sync _ k (wok_set w k _ h (Reach.step j (h o (List.mem_of_getElem? hk))))
 
-theorem wok_bind (w : World) (c : Call) (h : WOK w) : WOK (w.bind c).1 := by
-  unfold World.bind
-  cases hk : w.objs[w.live]? with
+theorem wok_bindOn (w : World) (k : Nat) (c : Call) (h : WOK w) : WOK (w.bindOn k c).1 := by
+  unfold World.bindOn
+  cases hk : w.objs[k]? with
   | none => exact h
   | some o =>
-    exact wok_sync _ w.live (wok_set w w.live w.live _ h (Reach.spawn [c] (h o (List.mem_of_getElem? hk))))
+    exact wok_sync _ k (wok_set w k _ h (Reach.spawn [c] (h o (List.mem_of_getElem? hk))))
 
-theorem wok_reload (w : World) (cfg' : Cfg) (rid : Nat) (equal : Bool) (h : WOK w) : WOK (w.reload cfg' rid equal) := by
-  unfold World.reload
-  split_ifs
-  · exact h
-  · cases hk : w.objs[w.live]? with
-    | none =>
-      intro p hp
-      simp only [List.mem_append, List.mem_singleton] at hp
-      rcases hp with hp | rfl
-      · exact h p hp
-      · exact Reach.init
-    | some o =>
-      intro p hp
-      simp only [List.mem_append, List.mem_singleton] at hp
-      rcases hp with hp | rfl
-      · exact h p hp
-      · exact Reach.tick _ (Reach.stat _ _ Reach.init)
+theorem reach_rebuildAux (clock : Nat) (rules : List RuleE) :
+    ∀ (old : List Nat) (objs : List Obj) (new : List Nat), (∀ o ∈ objs, Reach o.cfg o.conf) →
+      ∀ o ∈ (rebuildAux clock rules old objs new).1, Reach o.cfg o.conf := by
+  induction rules with
+  | nil => intro old objs new h; simpa [rebuildAux] using h
+  | cons r rs ih =>
+    intro old objs new h
+    unfold rebuildAux
+    split
+    · exact ih _ _ _ h
+    · split
+      · apply ih
+        intro o ho
+        simp only [List.mem_append, List.mem_singleton] at ho
+        rcases ho with ho | rfl
+        · exact h o ho
+        · exact Reach.tick _ (Reach.stat _ _ Reach.init)
+      · apply ih
+        intro o ho
+        simp only [List.mem_append, List.mem_singleton] at ho
+        rcases ho with ho | rfl
+        · exact h o ho
+        · exact Reach.tick _ Reach.init
 
-theorem wok_advance (w : World) (t : WT) (h : WOK w) : WOK (advance w t).1 := by
-  unfold advance
-  split
-  · exact h
-  · exact wok_bind w _ h
-  · exact h
+theorem wok_rebuild (w : World) (rules : List RuleE) (h : WOK w) : WOK (w.rebuild rules) :=
+  reach_rebuildAux w.clock rules w.cur w.objs [] h
+
+theorem wok_advance (todo : List WCall) : ∀ (w : World) (res : List Bool), WOK w → WOK (advance w res todo).1 := by
+  induction todo with
+  | nil => intro w res h; exact h
+  | cons c r ih =>
+    intro w res h
+    cases c with
+    | check fb =>
+      unfold advance
+      split
+      · exact ih _ _ h
+      · exact wok_bindOn w _ _ h
+    | complete rt err =>
+      unfold advance
+      split
+      · exact ih _ _ h
+      · exact wok_bindOn w _ _ h
+    | load rules noop nx => exact h
+
+theorem wok_startRoll (w : World) (t : WT) (hs : List Nat) (h : WOK w) : WOK (startRoll w t hs).1 := by
+  cases hs with
+  | nil => exact wok_advance _ _ _ h
+  | cons a r => exact wok_bindOn w _ _ h
+
+theorem wok_afterCall (w : World) (t : WT) (k : Nat) (b won : Bool) (h : WOK w) : WOK (afterCall w t k b won).1 := by
+  unfold afterCall
+  cases t.phase with
+  | checking rest hooks fb =>
+    cases b with
+    | false => simpa using wok_startRoll _ _ _ h
+    | true =>
+      cases rest with
+      | cons k2 ks => simpa using wok_bindOn w _ _ h
+      | nil =>
+        cases fb with
+        | true => simpa using wok_startRoll _ _ _ h
+        | false => simpa using wok_advance _ _ _ h
+  | rolling rest => exact wok_startRoll _ _ _ h
+  | completing rest rt err =>
+    cases rest with
+    | cons k2 ks => exact wok_bindOn w _ _ h
+    | nil => exact wok_advance _ _ _ h
+  | idle => exact wok_advance _ _ _ h
+  | loading _ _ _ => exact wok_advance _ _ _ h
+  | rebuilding _ _ => exact wok_advance _ _ _ h
 
 theorem wok_wtstep (w : World) (t : WT) (h : WOK w) : WOK (t.step w).1 := by
   unfold WT.step
   split
-  · exact wok_advance _ _ (wok_reload w _ _ _ h)
+  · split_ifs
+    · exact wok_advance _ _ _ h
+    · exact wok_advance _ _ _ (wok_rebuild w _ h)
+    · exact h
+  · split_ifs
+    · exact wok_advance _ _ _ (wok_rebuild w _ h)
+    · exact h
   · split
     · exact h
     · split
       · split_ifs
-        · exact wok_advance _ _ (wok_step w _ _ h)
+        · exact wok_afterCall _ _ _ _ _ (wok_step w _ _ h)
         · exact wok_step w _ _ h
       · exact wok_step w _ _ h
 
@@ -477,7 +530,7 @@ theorem wok_wrun (es : List Ent) : ∀ c : WConf, WOK c.w → WOK (wrun c es).w 
 theorem wok_wstart (ps : List (List WCall)) : ∀ w : World, WOK w → WOK (wstart w ps).1 := by
   induction ps with
   | nil => intro w h; exact h
-  | cons p r ih => intro w h; exact ih _ (wok_advance w _ h)
+  | cons p r ih => intro w h; exact ih _ (wok_advance p w [] h)
 
 /-! ## listener order when notifications do not overlap with other threads' steps -/
 
